@@ -159,6 +159,49 @@ func (o *Obligation) script() string {
 	return s
 }
 
+// scriptHyps: the hypotheses of the obligation alone (with the relevant
+// axioms); "unsat" means the obligation holds vacuously.
+func (o *Obligation) scriptHyps() string {
+	b := o.bank
+	var asserts []*Term
+	memo0 := map[*Term]map[string]bool{}
+	used := map[string]bool{}
+	for _, h := range o.Hyps {
+		for k := range symbolsOf(h, memo0) {
+			used[k] = true
+		}
+	}
+	if o.Goal != nil {
+		for k := range symbolsOf(o.Goal, memo0) {
+			used[k] = true
+		}
+	}
+	for _, a := range o.axioms {
+		if a.IsTrue() {
+			continue
+		}
+		rel, nUF := false, 0
+		for k := range symbolsOf(a, memo0) {
+			if strings.HasPrefix(k, "@") {
+				nUF++
+				if used[k] {
+					rel = true
+				}
+			}
+		}
+		if rel || nUF == 0 {
+			asserts = append(asserts, a)
+		}
+	}
+	for _, h := range o.Hyps {
+		if !h.IsTrue() {
+			asserts = append(asserts, h)
+		}
+	}
+	s, _ := b.Script(asserts, nil, nil)
+	return s
+}
+
 // bigConstsOf collects integer constants >= 16 occurring in t.
 func bigConstsOf(t *Term, memo map[*Term]bool, out map[string]bool) {
 	if memo[t] {
